@@ -1,6 +1,7 @@
 """C13 — the number of MPI ranks changes neither what is enumerated nor its soundness."""
 import filecmp, os
-import common, extract, libgen, oracle_lib
+import shutil
+import common, extract, libgen, oracle_lib, mpirun, synthlib
 
 LEAN_MODULE = "ESRVerif.Props.C13"
 LEVEL = "proof"
@@ -24,11 +25,13 @@ MODELLED = ["simplifier.py:make_changes", "simplifier.py:initial_sympify", "simp
 BYTE_FILES = ["trees", "orig_trees", "extra_trees", "all_equations", "aifeyn", "orig_aifeyn", "extra_aifeyn"]
 
 
-def _one(ctx, runname, nmax, P, delay_seed, ref, basis=None):
+def _one(ctx, runname, nmax, P, delay_seed, ref, basis=None, compls=None):
     """run generation under P ranks; compare with ref (the P=1 library dir). Returns True if everything held."""
     key = "%s:n<=%d:P=%d" % (runname, nmax, P)
     rp = dict(kind="run", runname=runname, nmax=nmax, P=P, delay_seed=delay_seed, basis=basis)
-    r = libgen.generate(ctx, runname, list(range(1, nmax + 1)), P=P, basis=basis,
+    compls = compls or list(range(1, nmax + 1))
+    rp["compls"] = compls
+    r = libgen.generate(ctx, runname, compls, P=P, basis=basis,
                         copy="c13_%s_P%d_%s" % (runname, P, delay_seed), delay_seed=delay_seed, timeout=240 if ctx.quick else 900)
     ctx.case((runname, nmax, P, delay_seed), nontrivial=P >= 2)
     if not r["ok"]:
@@ -46,13 +49,13 @@ def _one(ctx, runname, nmax, P, delay_seed, ref, basis=None):
         return None
     ok = True
     if ref is not None:
-        for n in range(1, nmax + 1):
+        for n in compls:
             for name in BYTE_FILES:
                 a, b = libgen.libfile(ref, n, name), libgen.libfile(r["dir"], n, name)
                 if not (os.path.exists(a) and os.path.exists(b) and filecmp.cmp(a, b, shallow=False)):
                     ctx.fail("bytes-differ:%s:%s_%d" % (key, name, n), "%s_%d.txt written under %d ranks differs from the 1-rank file (%s)" % (name, n, P, runname), rp)
                     ok = False
-    for n in range(1, nmax + 1):
+    for n in compls:
         fails, st = oracle_lib.check_library(r["dir"], n, ctx.rng, npoints=3, max_rows=600 if ctx.quick else 4000)
         for f in fails[:3]:
             ctx.fail("unsound:%s:n=%d:%s" % (key, n, f["kind"]), "library of %s n=%d generated under %d ranks is unsound: %s" % (runname, n, P, f["detail"]), rp)
@@ -62,9 +65,35 @@ def _one(ctx, runname, nmax, P, delay_seed, ref, basis=None):
     same_triple = None
     if ref is not None:
         same_triple = all(filecmp.cmp(libgen.libfile(ref, n, nm), libgen.libfile(r["dir"], n, nm), shallow=False)
-                          for n in range(1, nmax + 1) for nm in ("unique_equations", "matches", "inv_subs"))
+                          for n in compls for nm in ("unique_equations", "matches", "inv_subs"))
     ctx.sample(dict(run=key, delay_seed=delay_seed, wall_s=round(r["wall_s"], 1), collectives=r["res"]["collectives"], triple_identical_to_P1=same_triple))
     return r["dir"] if ok else None
+
+
+def _check_results_ranks(ctx, nlibs, Ps):
+    """check_results in isolation on hand-built libraries holding deliberately wrong merges: whatever the rank count,
+    every function it leaves merged must be sound (the wrong ones must be the ones it un-merges)"""
+    for k in range(nlibs):
+        base = os.path.join(ctx.tmp, "synth_%d" % k)
+        rows = synthlib.build(os.path.join(base, "P0", "compl_3"), 3, ctx.rng, nrows=ctx.rng.choice([17, 23, 26, 31]), nwrong=ctx.rng.choice([2, 3, 5]))
+        for P in Ps:
+            d = os.path.join(base, "P%d" % P)
+            shutil.copytree(os.path.join(base, "P0"), d)
+            r = mpirun.run(P, [os.path.join(common.HARNESS, "workers", "check_results.py"), os.path.join(d, "compl_3"), "3"], timeout=300,
+                           env_extra=ctx.env(), cwd=ctx.stage, python=common.PY)
+            shutil.rmtree(r.get("tmp", ""), ignore_errors=True)
+            ctx.case(("check_results", k, P), nontrivial=P >= 2)
+            rp = dict(kind="check_results", rows=rows, P=P)
+            if not r["ok"]:
+                ctx.fail("check_results-incomplete:P=%d" % P, "check_results on a %d-row library under %d ranks does not complete on every rank: %s %s" % (len(rows), P, r["error"], r["exit_codes"]), rp)
+                continue
+            fails, st = oracle_lib.check_library(d, 3, ctx.rng, npoints=3)
+            for f in fails[:2]:
+                ctx.fail("check_results-leaves-unsound:P=%d:%s" % (P, f["kind"]),
+                         "after check_results under %d ranks a function is still merged with a map that does not reproduce it: %s (library with %d deliberately wrong merges of %d rows)" % (
+                             P, f["detail"], sum(1 for x in rows if x["wrong"]), len(rows)), rp)
+            ctx.extra.setdefault("check_results_rows", 0)
+            ctx.extra["check_results_rows"] += st["checked_numeric"]
 
 
 def run(ctx):
@@ -74,18 +103,21 @@ def run(ctx):
     if deep:
         plan = [("core_maths", 5, [2, 3, 4, 5, 8, 16]), ("ext_maths", 4, [2, 3, 7, 16]), ("base_e_maths", 4, [3, 5, 11]), ("osc_maths", 3, [16])]
     else:
-        plan = [("core_maths", 4, [2, 3, 8]), ("base_e_maths", 3, [5, 12])]
+        # base_e_maths n=4: check_results un-merges functions there, so its index bookkeeping across ranks is exercised
+        plan = [("core_maths", 4, [2, 3, 8]), ("base_e_maths", 4, [2, 3, 12])]
     for runname, nmax, Ps in plan:
-        ref = _one(ctx, runname, nmax, 1, None, None)
+        compls = list(range(1, nmax + 1)) if (deep or runname == "core_maths") else [nmax - 1, nmax]
+        ref = _one(ctx, runname, nmax, 1, None, None, compls=compls)
         if ref is None:
             continue
         for k, P in enumerate(Ps):
-            _one(ctx, runname, nmax, P, (ctx.seed * 31 + k) if (deep or k == 1) else None, ref)
+            _one(ctx, runname, nmax, P, (ctx.seed * 31 + k) if (deep or k == 1) else None, ref, compls=compls)
     # a user basis through the verification hook, more ranks than functions at low complexity
     b = [["x", "a"], ctx.rng.sample(["inv", "exp", "square", "sqrt_abs", "log_abs", "cube"], 2), ["+", "*"] + ctx.rng.sample(["-", "/", "pow"], 1)]
     ref = _one(ctx, "verif_c13", 3, 1, None, None, basis=b)
     if ref is not None:
         _one(ctx, "verif_c13", 3, ctx.rng.choice([6, 7, 9] if ctx.quick else [9, 13, 16]), ctx.seed, ref, basis=b)
+    _check_results_ranks(ctx, 6 if deep else 2, [1, 2, 3, 5, 7] if deep else [1, 3, 5])
     ctx.extra["corr_obligations"] = 1
     ctx.extra["corr_discharged"] = int(not ctx.failures)
     ctx.extra["plan"] = [list(p) for p in plan]
@@ -94,9 +126,25 @@ def run(ctx):
 def replay(ctx, data):
     rp = data["replay"]
     c2 = common.Ctx("C13", "quick", 0); c2.tmp = ctx.tmp; c2.stage = ctx.stage
-    ref = _one(c2, rp["runname"], rp["nmax"], 1, None, None, basis=rp.get("basis"))
+    if rp.get("kind") == "check_results":
+        import csv
+        d = os.path.join(ctx.tmp, "replay_cr", "compl_3"); os.makedirs(d)
+        rows = rp["rows"]
+        open(os.path.join(d, "all_equations_3.txt"), "w").writelines(r["fun"] + "\n" for r in rows)
+        open(os.path.join(d, "unique_equations_3.txt"), "w").writelines(u + "\n" for u in synthlib.UNIQUES)
+        open(os.path.join(d, "matches_3.txt"), "w").writelines("%d\n" % r["match"] for r in rows)
+        with open(os.path.join(d, "inv_subs_3.txt"), "w") as f:
+            csv.writer(f, delimiter=";").writerows([r["chain"] for r in rows])
+        for name in ("trees", "aifeyn"):
+            open(os.path.join(d, "%s_3.txt" % name), "w").writelines("0\n" for _ in rows)
+        r = mpirun.run(rp["P"], [os.path.join(common.HARNESS, "workers", "check_results.py"), d, "3"], timeout=300, env_extra=ctx.env(), cwd=ctx.stage, python=common.PY)
+        fails, st = oracle_lib.check_library(os.path.dirname(d), 3, ctx.rng, npoints=3) if r["ok"] else ([dict(detail=r["error"])], {})
+        for f in fails:
+            print(f["detail"])
+        return not fails
+    ref = _one(c2, rp["runname"], rp["nmax"], 1, None, None, basis=rp.get("basis"), compls=rp.get("compls"))
     if rp["P"] != 1:
-        _one(c2, rp["runname"], rp["nmax"], rp["P"], rp.get("delay_seed"), ref, basis=rp.get("basis"))
+        _one(c2, rp["runname"], rp["nmax"], rp["P"], rp.get("delay_seed"), ref, basis=rp.get("basis"), compls=rp.get("compls"))
     for f in c2.failures:
         print(f["what"])
     return not c2.failures
